@@ -233,6 +233,25 @@ def inline_locals(ctx, unit, cfg, node, expr, depth: int = 4):
     return _LocalSubst(lookup, depth).visit(copy.deepcopy(expr))
 
 
+def hasattr_branches(ctx, unit, cfg, attr: str = "aclose"):
+    """{branch node: the ``hasattr(x, attr)`` call it tests} - the answer may be held in a local before it is tested
+    (``has = hasattr(x, "aclose"); if not has: ...``)"""
+    out = {}
+    for n in cfg.nodes:
+        if n.kind != "branch":
+            continue
+        e = n.ast
+        if isinstance(e, ast.Name):
+            try:
+                e = inline_locals(ctx, unit, cfg, n, e, depth=1)
+            except Exception:  # noqa: BLE001
+                continue
+        if isinstance(e, ast.Call) and norm(e.func) == "hasattr" and len(e.args) == 2 \
+                and isinstance(e.args[1], ast.Constant) and e.args[1].value == attr:
+            out[n] = e
+    return out
+
+
 def uncast(e):
     """typing.cast(T, x) -> x (casts are no-ops at run time)."""
     while isinstance(e, ast.Call) and norm(e.func) in ("cast", "typing.cast") and len(e.args) == 2:
@@ -297,8 +316,9 @@ def present_units(ctx, shorts):
     public tools are anchors and must exist)."""
     out = []
     for short in shorts:
-        last = short.rsplit(".", 1)[-1]
-        if last.startswith("_") and not last.startswith("__") and not ctx.pkg.has_unit(short):
+        parts = short.split(".")[1:]
+        private = any(p_.startswith("_") and not p_.startswith("__") for p_ in parts)  # (a private function, or a method of a private class)
+        if private and not ctx.pkg.has_unit(short):
             ctx.note(f"the private helper {short} does not exist as a function of its own any more; it is not looked at separately")
             continue
         out.append(short)
